@@ -783,6 +783,19 @@ def all_summaries(repo, tier='quick'):
                 finally:
                     ShapeBuilder.overrides = {}
                 out[cls].append(ex.summarise(cls, '%s & %s is a %s' % (sm.variant, path, k), root, b))
+                # ... and once for every other value of the dimensions the new node brings with it (its operator, its lengths)
+                for key, values in sorted((kv for kv in b.dims.items() if kv[0] not in sm.builder.dims), key=repr)[:6]:
+                    for v in values[1:]:
+                        ShapeBuilder.overrides = {path: k}
+                        try:
+                            ch2 = dict(sm.builder.choices)
+                            ch2[key] = v
+                            b2 = ShapeBuilder(ch2, sm.builder.profile)
+                            root2 = b2.node(cls, 'node')
+                        finally:
+                            ShapeBuilder.overrides = {}
+                        out[cls].append(ex.summarise(cls, '%s & %s is a %s & %s=%s' % (
+                            sm.variant, path, k, '/'.join(str(x) for x in key), v), root2, b2))
         # match statements are outside the domain of the name-resolution properties, but not of C08 / C11 / C17: once the
         # extractor has visit methods for them, they are summarised like every other construct
         pat = sorted(n for n, srt in G.SORT_OF.items() if srt == 'pattern' and n in G.NODE_FIELDS)
